@@ -1,21 +1,94 @@
+import json, os, re
+
+
+def _witness():
+    """Called by vlib.generic_check (as the `extra_replace` hook: after the Coq build, before the harness
+    is built and run; the case directory already exists).  Reads the atomic shapes atomics2v translated
+    from the c2/state.go under check (coq/Gen/StateAtomics.v) and evaluates INSIDE Coq, on those generated
+    terms, the three-step witness schedule of Model/Interleave.v ([T0.load; T1 to completion; T0.rest]) for
+    Set||Set, Set||Unset and SetLast||Set.  The result is written to build/c13_run/witness.json; the harness
+    attaches it to the replay of a lost update seen by the stress run and to the evidence.  Adds no overlay
+    file (returns {})."""
+    import vlib
+    casedir = os.path.join(vlib.BUILD, "c13_run")
+    lock = None
+    info = {"source": os.path.join(vlib.REPO, "c2", "state.go"), "translator": "tools/atomics2v -> coq/Gen/StateAtomics.v"}
+    try:
+        lock = vlib.Lock(".coq.lock")        # another check may regenerate Gen/*.v from another tree: hold the build lock throughout
+        lock.__enter__()
+        vlib.run_generators()
+        vlib.sh("timeout 300 make Gen/StateAtomics.vo 2>&1", cwd=vlib.COQ, timeout=330)
+        gen = open(os.path.join(vlib.COQ, "Gen", "StateAtomics.v")).read()
+        info["shapes"] = {m.group(1): {"shape": m.group(2), "atomic_calls": m.group(3)} for m in
+                          re.finditer(r"Definition gen_(set|unset|setlast) : mutator := Mutator (\w+) \[(.*)\]\.", gen)}
+        nr = re.findall(r"\(\* (\w+): not recognised: (.*?) \*\)", gen)
+        if nr:
+            info["not_recognised"] = dict(nr)
+        info["all_linearisable"] = bool(info["shapes"]) and all(
+            (v["shape"] == "CasLoop" and re.fullmatch(r"ALoad; ACas .*", v["atomic_calls"])) or
+            (v["shape"] == "AtomicRMW" and re.fullmatch(r"A(Or|And) .*", v["atomic_calls"])) for v in info["shapes"].values())
+        wd = os.path.join(vlib.BUILD, "c13_witness")
+        os.makedirs(wd, exist_ok=True)
+        pairs = [("Set(1) || Set(2), initial word 0", "(gc (MSet 1)) (gc (MSet 2)) 0"),
+                 ("Set(1) || Unset(2), initial word 2", "(gc (MSet 1)) (gc (MUnset 2)) 2"),
+                 ("SetLast(7) || Set(1), initial word 0", "(gc (MSetLast 7)) (gc (MSet 1)) 0")]
+        src = "From XMT Require Import Base.Prelude Model.State Model.Interleave Gen.StateAtomics.\n" \
+              "Definition gc := to_call gen_set gen_unset gen_setlast.\n" \
+              "Definition show (r : witness_result) := (wr_final r, wr_done r, wr_serial01 r, wr_serial10 r, wr_lost r).\n" + \
+              "".join("Eval vm_compute in (show (lost_update_witness %s)).\n" % t for _, t in pairs)
+        open(os.path.join(wd, "witness.v"), "w").write(src)
+        rc, out = vlib.sh(["coqc", "-Q", vlib.COQ, "XMT", "witness.v"], cwd=wd, timeout=120)
+        rows = re.findall(r"=\s*\((-?\d+),\s*(true|false),\s*(-?\d+),\s*(-?\d+),\s*(true|false)\)", " ".join(out.split()))
+        if rc == 0 and len(rows) == len(pairs):
+            info["witness_schedule"] = {
+                "thread_ids": [0, 1, 1, 1, 1, 0, 0, 0, 0],
+                "meaning": "thread 0 executes its first atomic call (the load); thread 1 runs until it has returned; thread 0 executes the rest "
+                           "(surplus slots let a retry loop finish, a returned thread stutters); evaluated with vm_compute on the generated terms"}
+            info["witness"] = [{"calls": n, "final_word": int(r[0]), "both_returned": r[1] == "true",
+                                "word_if_call0_then_call1": int(r[2]), "word_if_call1_then_call0": int(r[3]),
+                                "update_lost": r[4] == "true"} for (n, _), r in zip(pairs, rows)]
+            info["model_loses_update"] = any(w["update_lost"] for w in info["witness"])
+        else:
+            info["witness_error"] = out[-600:]
+    except Exception as e:                                        # never let the hook break the check
+        info["witness_error"] = repr(e)
+    finally:
+        try:
+            if lock is not None:
+                lock.__exit__()
+        except Exception:
+            pass
+    try:
+        json.dump(info, open(os.path.join(casedir, "witness.json"), "w"), indent=1)
+    except OSError:
+        pass
+    return {}
+
+
 CFG = dict(
     id="C13", props="Props/C13.v", harness="c13", shims=["c2--c13.go"], tags="verif",
+    extra_replace=_witness,
     trusted_base=[
         "tools/atomics2v (Go, go/parser + go/ast): reads c2/state.go on every run and emits coq/Gen/StateAtomics.v (the sync/atomic calls of Set/Unset/SetLast, "
-        "their value expressions, the control shape LoadStore/CasLoop/AtomicRMW/Unknown, the state* constants); anything it does not recognise becomes Unknown",
+        "their value expressions, the control shape LoadStore/CasLoop/AtomicRMW/Unknown, the state* constants); anything it does not recognise becomes Unknown, "
+        "for which the concurrent theorems do not compile",
         "the semantics given to one sync/atomic call in Model/Interleave.v (Load/Store/CompareAndSwap/Or/And are sequentially consistent single steps on one word); "
         "Go's memory model for sync/atomic is trusted, not modelled",
-        "the getters are modelled sequentially (every load of one call sees the same word): a getter racing with a mutator is outside the theorems",
+        "the getters and the compound calls Tag/ChannelCanStop/SetChannel are modelled sequentially (every load of one call sees the same word unless the call itself "
+        "stored in between): a compound call racing with another writer is outside the theorems",
     ],
     assumptions=[
-        "state words are arbitrary uint32 values, arguments arbitrary uint32 (Set/Unset) / uint16 (SetLast) values; the symbolic half-independence theorems take flag arguments below 2^16",
-        "a thread executes one mutator call; schedules are arbitrary finite lists of thread ids, complete = every thread has returned",
+        "state words are arbitrary uint32 values, arguments arbitrary uint32 (Set/Unset) / uint16 (SetLast) values; the half-independence theorems take flag arguments below 2^16",
+        "a thread executes one mutator call; schedules are arbitrary finite lists of thread ids (any length, any order, unfair ones included); complete = every call has returned",
     ],
-    level_text="Theorems over the Gallina model of c2/state.go for ALL words: Set/Unset keep the group half, SetLast keeps the flag half and sets the group; the complete truth table "
+    level_text="28 theorems. Over the Gallina model of c2/state.go for ALL words: Set/Unset keep the group half, SetLast keeps the flag half and sets the group; the complete truth table "
                "of every predicate over all 2^16 flag states (vm_compute over the whole finite domain, lifted to all 2^32 words by independence lemmas): closed implies not ready, "
-               "not receivable, closing; the channel request protocol and single consumption of the 'updated' notice; and no_lost_update: for every list of concurrent Set/Unset/SetLast "
-               "calls, instantiated from the atomic shape TRANSLATED from the current state.go, and every complete schedule, the final word is the fold of the calls in some "
-               "linearisation order. The sequential model is tied to /repo by running every flag state through every method of the real type; the concurrent theorem is tied by the translator.",
+               "not receivable, closing; the channel request protocol and single consumption of the 'updated' notice. Over the interleaving semantics, instantiated with the atomic "
+               "shape TRANSLATED on every run from the current state.go: no_lost_update (for every list of concurrent Set/Unset/SetLast calls and every complete schedule the final "
+               "word is the fold of ALL calls in the order of their successful compare-and-swap steps; by induction on the schedule), no call is ever half applied, a flag set by some "
+               "call and cleared by none is set at the end, the halves stay independent concurrently, complete schedules exist; and the refutation of the same statement for the "
+               "load-then-store shape of the pinned tree. The sequential model is tied to /repo by running every flag state through every method of the real type; the concurrent "
+               "theorems are tied by the translator, by the theorem that the translated commit functions ARE Set/Unset/SetLast of the sequential model, and by a goroutine stress run.",
     level_note="Proof is about the model and about the translated atomic shape; the sequential tie is exhaustive on the flag half (65536 rows) and sampled on the group half. "
                "Trusted: Coq kernel+vm_compute, the translator, sync/atomic semantics, the harness. No axioms.",
     partial="real goroutine schedules are only sampled by the stress run; the theorem covers every interleaving of the modelled atomic steps",
